@@ -98,6 +98,12 @@ def lifeCase (inp impl : String) : CaseOut :=
 def ctxApiCase (inp impl : String) : CaseOut :=
   let ws := words inp
   match kvNat ws "n", kv ws "mode" with
+  | some n, some "b" =>
+    -- n actors (two engines of one process) are inside Receive; a message to an idle actor of a third engine is delivered:
+    -- inboxes share nothing (the inbox model has no state outside one inbox; C03.no_idle_backlog needs no other actor to move)
+    { model := "delivered",
+      spec := if impl = "delivered" then "ok" else s!"FAIL:C01+C03 {impl}",
+      tags := ["many-busy-actors"], nontrivial := n ≥ 2 }
   | some n, some mode =>
     let item (i : Nat) : String :=
       let m := if mode = "m" then ["r", "s", "f"].getD (i % 3) "r" else mode
